@@ -167,6 +167,10 @@ def extinction_from_file(ctx, rule='AGREE-1'):
     I = Interp(repo, FitsHooks())
     uw, uc = unit_atom('Uw'), unit_atom('Uc')
     out = I.call(ff, [ClassRef(ci), 'FILE'], {'columns': (3, 1), 'wav_unit': Arr((), uw, unit=uw), 'chi_unit': Arr((), uc, unit=uc)})
+    for f_ in I.findings:
+        if f_.kind == 'dtype':
+            ctx.violation('DTYPE', 'from_file: element type the table is read into', '%s:%d Extinction.from_file' % (f_.module, f_.line), f_.msg, 'dtype:' + f_.msg[:60])
+            return True
     if not isinstance(out, Obj):
         return False
     w, c = I.getattr(out, 'wav', None, ff.module), I.getattr(out, 'chi', None, ff.module)
